@@ -30,11 +30,12 @@ type Obligation struct {
 	Src    string
 	Inputs []string // symbols whose model values are of interest
 	// filled by the solver stage
-	Result  string
-	Solver  string
-	Ms      int64
-	Output  string
-	IsCover bool // cover query: expected sat
+	Result   string
+	Solver   string
+	Ms       int64
+	Output   string
+	FirstTry string // solver output of the first attempt when the obligation was retried
+	IsCover  bool   // cover query: expected sat
 }
 
 // funcRun is the per-function context of a verification run.
